@@ -46,6 +46,14 @@ def cases(rng, tier):
         free = [c for c in range(1 << n) if not c & act_on(g)]
         c = rng.choice(free)
         cs.append({"kind": "applyraw", "n": n, "raw": gen.random_state(rng, n), "e": ("c", c, g)})
+    # the threaded kernels with control qubits beyond the first block of 64 amplitudes (registers of 7-9 qubits)
+    for _ in range(24 if tier == "quick" else 600):
+        n = rng.randint(7, 9)
+        g = gen.random_gate(rng, min(n, 6))
+        hi = 1 << rng.randint(6, n - 1)
+        free = [c for c in range(1 << n) if not c & act_on(g)]
+        c = (rng.choice(free) | hi) & ~act_on(g)
+        cs.append({"kind": "applyraw", "n": n, "raw": gen.random_state(rng, n), "e": ("c", c, g), "threads": rng.choice([2, 3, 5])})
     # SingleOp::c called directly on an element of a queue (plain, already controlled once or twice): every mask
     n = 4
     for _ in range(40 if tier == "quick" else 600):
